@@ -171,6 +171,9 @@ def guarded(check, case, stats):
     except Violation as v:
         if v.case is None:
             v.case = case
+        prev = getattr(stats, "last_violation", None)
+        if prev is None or len(canon(v.case)) <= len(canon(prev.case)):
+            stats.last_violation = v
         raise
     except (hypothesis.errors.HypothesisException, KeyboardInterrupt, MemoryError, HarnessError):
         raise
